@@ -72,6 +72,10 @@ type Case struct {
 	// SPThen, when set, replaces the registration (same entity ID, same registry value, same IdentityProvider
 	// value) between the first and the second response; the second is judged against SPThen.
 	SPThen *SPMeta `json:"sp_then,omitempty"`
+	// IDPThen, when set, re-configures the public fields of the SAME IdentityProvider value (signature method,
+	// Key / Signer, certificate, intermediates, URLs, ValidDuration, template ...) before the second response,
+	// which is judged against IDPThen; a third response follows after switching back to IDP.
+	IDPThen *idpkit.IDPConf `json:"idp_then,omitempty"`
 
 	Initiated bool   `json:"initiated,omitempty"`
 	Method    string `json:"method,omitempty"`
@@ -347,6 +351,18 @@ func gen(t *rapid.T) Case {
 		default:
 			c.ClockMs = rapid.Int64Range(0, max64(c.DelayMs-1, 0)).Draw(t, "age")
 		}
+	}
+	if rapid.IntRange(0, 2).Draw(t, "idp-reconfigure") == 0 {
+		then := idpkit.IDPConf{
+			Base:          rapid.SampledFrom([]string{c.IDP.Base, c.IDP.Base, "https://login.example.org/realms/r2"}).Draw(t, "then-base"),
+			KeyName:       rapid.SampledFrom([]string{"", "", "idp2"}).Draw(t, "then-key"),
+			Signer:        rapid.Bool().Draw(t, "then-signer"),
+			StaleKey:      rapid.IntRange(0, 2).Draw(t, "then-stalekey") == 0,
+			SigMethod:     rapid.SampledFrom(idpkit.RSAMethods).Draw(t, "then-sigmethod"),
+			Intermediates: rapid.SampledFrom([]int{0, 1, 2}).Draw(t, "then-intermediates"),
+		}.WithExtras(rapid.Bool().Draw(t, "then-logoutURL"), rapid.Bool().Draw(t, "then-loginURL"), rapid.SampledFrom([]int{0, 1, 8760}).Draw(t, "then-validHours"),
+			rapid.IntRange(0, 2).Draw(t, "then-template") == 0, rapid.IntRange(0, 2).Draw(t, "then-maker") == 0)
+		c.IDPThen = &then
 	}
 	if rapid.IntRange(0, 2).Draw(t, "re-register") == 0 {
 		// the same SP registers again with other endpoints / keys / requested attributes before the second response
@@ -932,8 +948,24 @@ func check(c Case) (res pbt.Result) {
 	res.NonTrivial = nonPlain || c.IDP.Signer || c.IDP.SigMethod != "" || (!c.Initiated && c.ClockMs <= c.SkewMs && c.ClockMs != 0)
 
 	sp := c.SP
-	for i := 0; i < 2; i++ {
-		if i == 1 && c.SPThen != nil {
+	cur := c // the configuration in force for the response being judged
+	rounds := 2
+	if c.IDPThen != nil {
+		rounds = 3
+	}
+	for round := 0; round < rounds; round++ {
+		i := round % 2 // which session
+		if c.IDPThen != nil && round > 0 {
+			if round == 1 {
+				cur.IDP = *c.IDPThen
+			} else {
+				cur.IDP = c.IDP
+			}
+			cur.IDP.Apply(idp)
+			res.Classes = append(res.Classes, "sequence:idp-reconfigured")
+			res.NonTrivial = true
+		}
+		if round == 1 && c.SPThen != nil {
 			sp = *c.SPThen
 			sp.EntityID = c.SP.EntityID
 			md, err = sp.descriptor()
@@ -945,11 +977,11 @@ func check(c Case) (res pbt.Result) {
 			res.NonTrivial = true
 		}
 		sessions.S = c.session(i, now)
-		reqID := fmt.Sprintf("%s-%d", c.ReqID, i)
+		reqID := fmt.Sprintf("%s-%d", c.ReqID, round)
 		idp.Logger.(*idpkit.Quiet).Lines = nil
-		o := c.serve(idp, sessions, reqID, now)
+		o := cur.serve(idp, sessions, reqID, now)
 		if o.panic != "" {
-			res.Err = fmt.Sprintf("serving session %d panicked: %s", i, o.panic)
+			res.Err = fmt.Sprintf("serving response %d panicked: %s", round, o.panic)
 			res.NonTrivial = true
 			return res
 		}
@@ -962,7 +994,7 @@ func check(c Case) (res pbt.Result) {
 			res.Classes = append(res.Classes, "outcome:error-status")
 			// non-vacuity: when the selected endpoint is a registered HTTP-POST one the IdP has everything it needs
 			// (an IdP that refuses to work with both Key and Signer configured would be within the property)
-			if o.sel != nil && o.sel.Binding == post && idpkit.Member(*o.sel, idpkit.AllACS(md)) && !c.IDP.StaleKey {
+			if o.sel != nil && o.sel.Binding == post && idpkit.Member(*o.sel, idpkit.AllACS(md)) && !cur.IDP.StaleKey {
 				res.Err = fmt.Sprintf("non-vacuity: status %d although an HTTP-POST endpoint %s was selected; log: %v", o.status, idpkit.EndpointKey(o.sel), o.log)
 				res.NonTrivial = true
 			}
@@ -972,7 +1004,7 @@ func check(c Case) (res pbt.Result) {
 			res.Err = fmt.Sprintf("status %d: neither a response form nor an error status", o.status)
 			return res
 		}
-		if i == 0 {
+		if round == 0 {
 			res.Classes = append(res.Classes, "outcome:form")
 			if o.sel != nil {
 				first := idpkit.AllACS(md)[0]
@@ -990,8 +1022,8 @@ func check(c Case) (res pbt.Result) {
 				res.Classes = append(res.Classes, "assertion:plain")
 			}
 		}
-		if msg := c.judge(o, sp, md, reqID, i, 1-i, now); msg != "" {
-			res.Err = fmt.Sprintf("response %d (session marker %s): %s", i, c.Markers[i], msg)
+		if msg := cur.judge(o, sp, md, reqID, i, 1-i, now); msg != "" {
+			res.Err = fmt.Sprintf("response %d (session marker %s): %s", round, c.Markers[i], msg)
 			res.NonTrivial = true
 			return res
 		}
@@ -1138,6 +1170,50 @@ func enumRequestContent(_ string, emit func(Case)) {
 	}
 }
 
+// enumReconfiguration: one IdentityProvider value, three responses, its public fields changed in between
+// (signature method, key pair, Key <-> Signer, intermediates, URLs) - each response is judged against the
+// configuration in force when it was issued.
+func enumReconfiguration(_ string, emit func(Case)) {
+	sha256m, sha512m := idpkit.RSAMethods[2], idpkit.RSAMethods[4]
+	base := idpkit.IDPConf{Base: "https://idp.example.com"}
+	with := func(f func(*idpkit.IDPConf)) idpkit.IDPConf { x := base; f(&x); return x }
+	pairs := [][2]idpkit.IDPConf{
+		{base, with(func(x *idpkit.IDPConf) { x.SigMethod = sha256m })},
+		{with(func(x *idpkit.IDPConf) { x.SigMethod = sha512m }), base},
+		{base, with(func(x *idpkit.IDPConf) { x.KeyName = "idp2" })},
+		{with(func(x *idpkit.IDPConf) { x.KeyName = "idp2"; x.Signer = true }), with(func(x *idpkit.IDPConf) { x.SigMethod = sha256m })},
+		{base, with(func(x *idpkit.IDPConf) { x.Signer = true })},
+		{with(func(x *idpkit.IDPConf) { x.Signer = true; x.SigMethod = sha256m }), with(func(x *idpkit.IDPConf) { x.KeyName = "idp2"; x.SigMethod = sha256m })},
+		{base, with(func(x *idpkit.IDPConf) { x.Intermediates = 2 })},
+		{with(func(x *idpkit.IDPConf) { x.Intermediates = 2; x.Logout = true }), with(func(x *idpkit.IDPConf) { x.ValidHours = 1; x.Template = true })},
+		{base, with(func(x *idpkit.IDPConf) { x.Base = "https://login.example.org/realms/r2" })},
+		{base, with(func(x *idpkit.IDPConf) {
+			x.Base = "https://login.example.org/realms/r2"
+			x.KeyName = "idp2"
+			x.SigMethod = sha512m
+			x.Intermediates = 1
+		})},
+	}
+	sessA := idpkit.Sess{ID: "sessionhandle0enumaaaa", SubjectID: "qaaaaaaaaaaa-subject", Index: "ia", NameID: "qaaaaaaaaaaa-alice", UserName: "qaaaaaaaaaaa-u"}
+	sessB := idpkit.Sess{ID: "sessionhandle0enumbbbb", SubjectID: "qbbbbbbbbbbb-subject", Index: "ib", NameID: "qbbbbbbbbbbb-bob", Email: "qbbbbbbbbbbb@example.com"}
+	for _, pr := range pairs {
+		for _, use := range []string{"", "encryption"} {
+			for _, flow := range []string{"GET", "POST", "initiated"} {
+				then := pr[1]
+				c := Case{IDP: pr[0], IDPThen: &then, SkewMs: 180000, DelayMs: 90000,
+					SP:    SPMeta{EntityID: "https://sp.example.com/saml/metadata", KeyUse: use, KeyName: "sp", Descs: [][]EP{{{Binding: post, Location: "https://sp.example.com/saml/acs", Index: 0}}}},
+					ReqID: "id-enum", Relay: "rs", ClockMs: 1000, Dest: true, Sessions: [2]idpkit.Sess{sessA, sessB}, Markers: [2]string{"qaaaaaaaaaaa", "qbbbbbbbbbbb"}}
+				if flow == "initiated" {
+					c.Initiated = true
+				} else {
+					c.Method = flow
+				}
+				emit(c)
+			}
+		}
+	}
+}
+
 var prop = &pbt.Prop[Case]{
 	ID: "C06",
 	Rule: "cases: two consecutive validated requests (GET-deflate / POST; ACS named by URL, by index, by both, or not at all) or IdP-initiated launches served by one IdP for two sessions with disjoint markers " +
@@ -1146,12 +1222,13 @@ var prop = &pbt.Prop[Case]{
 		"registered ACS endpoints may carry ResponseLocation, RequestedAttributes may list AttributeValue children (marked, metadata-only values), the IdP configuration fields no clause mentions are varied (LogoutURL, LoginURL, ValidDuration, form template, explicit assertion maker, stale Key beside a Signer), " +
 		"and in a third of the cases the SP is re-registered (other endpoints / keys / requested attributes) on the same registry and IdentityProvider value between the two responses, the second being judged against the new registration; " +
 		"sessions may have an empty NameID (then the emitted NameID must be empty or absent) and two thirds of the SP-initiated cases carry optional, requester-chosen request content (Subject/NameID, NameIDPolicy, Extensions, Conditions, RequestedAuthnContext, Scoping, ProviderName, AttributeConsumingServiceIndex, ForceAuthn, IsPassive, Consent) whose marked values must not appear in the assertion's Subject, Conditions or attributes (own exhaustive grid); " +
+		"in a third of the cases the public fields of the same IdentityProvider value are re-configured (signature method, key pair, Key/Signer, certificate, intermediates, URLs, ValidDuration, template) before the second response and switched back before a third, each response being judged against the configuration in force when it was issued (own exhaustive grid); " +
 		"exhaustive: method x key kind x intermediates x key use x flow x clock grid; ResponseLocation x requested-attribute values x encryption x selection mode x re-registration grid. " +
 		"non-trivial: selected endpoint differs from the request's ACS URL or from the first registered endpoint, or a session string is non-ASCII/markup, or the clock is within MaxClockSkew of the request's IssueInstant, or a non-default signature method / external signer is configured. distinct: sha256 of the JSON case.",
 	Gen:   gen,
 	Check: check,
 	Reset: fix.Reset,
-	Enums: []pbt.Enum[Case]{{Name: "config-grid", Each: enumConfigs}, {Name: "metadata-extras-grid", Each: enumMetadataExtras}, {Name: "request-optional-content-grid", Each: enumRequestContent}},
+	Enums: []pbt.Enum[Case]{{Name: "config-grid", Each: enumConfigs}, {Name: "metadata-extras-grid", Each: enumMetadataExtras}, {Name: "request-optional-content-grid", Each: enumRequestContent}, {Name: "idp-reconfiguration-grid", Each: enumReconfiguration}},
 	Assumptions: []string{
 		"the emitted form is read with golang.org/x/net/html, the decoded XML with an own reader on encoding/xml's tokenizer, EncryptedAssertion is opened with a stdlib-only RSA-OAEP/AES-CBC helper and, as cross-check, with internal/refenc",
 		"signatures are verified with goxmldsig (fresh ValidationContext, only the IdP certificate, IdAttribute ID, fake clock at the fixture epoch): the observation point the property names",
